@@ -155,6 +155,27 @@ theorem C06_missing_order_needs_inner_sort :
       isort conv (ddefaults [] 0 (isort (lexLe natLe) [b, a])) := by
   decide +kernel
 
+/-- The key order of `model.amplitudes` for names as code points, with the modelled converter
+(stable sort on `natural_sorting(str(a))`, ties!) and the inner `sorted(atoms, key=str)`: it is a
+function of the REGISTRATION order of the amplitudes with transitions (which follows
+`reaction.transitions` and the configuration) and of the atoms as a SET — nothing else. -/
+theorem C06_amplitudes_order_only_registration {β : Type} (registered : List (List Nat × β)) (zero : β)
+    (iter iter' : List (List Nat)) (hp : iter.Perm iter') :
+    isort (fun x y => natKeyLe (natKey x.1) (natKey y.1)) (ddefaults registered zero (isort (lexLe natLe) iter)) =
+      isort (fun x y => natKeyLe (natKey x.1) (natKey y.1)) (ddefaults registered zero (isort (lexLe natLe) iter')) :=
+  C06_missing_order (lexLe natLe) natLex_total natLex_anti natLex_trans _ registered zero iter iter' hp
+
+/-- … and it does depend on the registration order (observation, outside C06's statement): the
+same two amplitudes registered in the two orders come out in the two orders, because
+`A[0, -1, -1]` and `A[0, 1, 1]` tie under the converter's key. -/
+theorem C06_amplitudes_depend_on_registration_order :
+    let a : List Nat := "A[0, -1, -1]".toList.map Char.toNat
+    let b : List Nat := "A[0, 1, 1]".toList.map Char.toNat
+    let conv : List Nat × Nat → List Nat × Nat → Bool := fun x y => natKeyLe (natKey x.1) (natKey y.1)
+    isort conv (ddefaults [(a, 1), (b, 1)] 0 (isort (lexLe natLe) [a, b])) ≠
+      isort conv (ddefaults [(b, 1), (a, 1)] 0 (isort (lexLe natLe) [a, b])) := by
+  decide +kernel
+
 /-- **C06_witness_missing.**  Zero definitions inserted in set-iteration order (seeded change
 C06_3 / before the `sorted` of e6c0bd9): two builders of one reaction with the same configuration
 whose atom sets iterate differently (two hash seeds) return `amplitudes` in different key orders. -/
